@@ -1,6 +1,6 @@
 #!/bin/bash
 # run every registered check on /repo's current tree (sequentially; each one uses all cores)
-cd /verif
+cd "$(dirname "$0")/.."
 tier=${1:-quick}
 rc=0
 for id in $(python3 -c "import json;print(' '.join(c['property_id'] for c in json.load(open('MANIFEST.json'))['checks']))"); do
